@@ -17,7 +17,7 @@ from sim.gen_expr import gen_ahb_parts, gen_valid, key_universe, render, render_
 from sim.prf import PROFILES, rng
 from sim.props.common import LIVENESS_ERRORS, STATES, base_verdict, clone, fail, liveness_verdict, strip_msg
 from sim.runner import pristine, shrink_decisions
-from sim.world import TIME_UNIT, make_cer, run_requests
+from sim.world import TIME_UNIT, describe_exception, make_cer, run_requests
 
 PROP_ID = "C11"
 LEVEL = "exploration"
@@ -183,11 +183,24 @@ async def do_op(sim, request):
                 parse_ahb_expression_to_single_requirement_indicator_expressions
             )
             try:
-                tree = parse(text)
+                if len(op) > 2 and op[2] == "kw":
+                    # the same call with the documented parameter name as keyword
+                    try:
+                        tree = parse(**{"condition_expression" if kind == "P" else "ahb_expression": text})
+                    except TypeError as type_error:
+                        if "unexpected keyword" in str(type_error):
+                            continue  # the parameter was renamed: not a matter of parse history
+                        raise
+                else:
+                    tree = parse(text)
                 got = canon_tree(tree)
                 state["handles"].append({"text": text, "tree": tree, "as_returned": got, "edited": False})
             except SyntaxError:
                 got = {"exc": "SyntaxError"}
+            except (KeyboardInterrupt, SystemExit):
+                raise
+            except Exception as exc:  # pylint:disable=broad-except
+                got = {"exc": type(exc).__name__}  # neither a tree nor the documented SyntaxError
             expected = reference_parse(which, text)
             if got != expected:
                 violation(
@@ -213,7 +226,7 @@ async def do_op(sim, request):
             except (KeyboardInterrupt, SystemExit):
                 raise
             except BaseException as exc:  # pylint:disable=broad-except
-                outcome = {"exc": type(exc).__name__}
+                outcome = describe_exception(exc)
             expected = sim.scenario["_references"][f"{cid}|{eval_kind}|{text}"]
             if outcome != expected:
                 violation(
@@ -324,6 +337,23 @@ def generate(seed, tier="quick"):
             if variant != entry["text"]:
                 pool.append(dict(entry, text=variant))
     big = tier == "thorough" and seed % 4 == 0  # longer histories for a quarter of the thorough runs
+    # confusable neighbours with a *different outcome*: a malformed string one normalisation step away from a valid
+    # pool string must stay malformed (and must not poison the valid one), in whichever order they are parsed
+    import re as _re
+
+    for entry in list(pool):
+        if rnd.random() < 0.15:
+            text, kind = entry["text"], rnd.choice(["space_in_key", "space_in_ub", "dropped_bracket", "doubled_bracket"])
+            if kind == "space_in_key":
+                variant = _re.sub(r"\[(\d)(\d+)\]", r"[\1 \2]", text, count=1)
+            elif kind == "space_in_ub":
+                variant = text.replace("[UB", "[UB ", 1).replace("[UB 1", "[U B1", 1) if "[UB" in text else text
+            elif kind == "dropped_bracket":
+                variant = text[: text.rfind("]")] + text[text.rfind("]") + 1 :] if "]" in text else text
+            else:
+                variant = text.replace("[", "[[", 1)
+            if variant != text:
+                pool.append({"grammar": entry["grammar"], "text": variant, "evals": ["resolve", "resolve_raw", "keys"]})
     n_clients = rnd.choice([2, 3, 4, 6] if big else [1, 1, 2, 2, 3, 4])
     total_ops = rnd.randint(30, 120) if big else rnd.randint(3, 40)
     flood = rnd.random() < (0.04 if tier == "quick" else 0.06)
@@ -335,6 +365,8 @@ def generate(seed, tier="quick"):
             target = rnd.randrange(len(pool))
             if roll < 0.34:
                 ops.append(["P" if pool[target]["grammar"] == "cond" else "A", target])
+                if rnd.random() < 0.15:
+                    ops[-1].append("kw")
             elif roll < 0.44:
                 ops.append(["R", rnd.choice([e for e in pool[target]["evals"] if e in RESOLVING]), target])
             elif roll < 0.62:
